@@ -132,10 +132,20 @@ WideN  == IF Thorough THEN {13, 16, 17, 31, 32, 33, 64, 65, 100} ELSE {13, 16, 1
 Patterns(n) == { {}, {1}, {n}, {1, n}, {n - 1}, {(n + 1) \div 2}, 1..n,
                  {i \in 1..n : i % 2 = 1}, {i \in 1..n : i % 2 = 0}, {i \in 1..n : i % 7 = 3} }
 
+\* the merkleblock message: block header (80 bytes, <<"hdr">>), transaction
+\* count (4 bytes, little endian), hashes (compact-size count, 32 bytes each:
+\* <<"hash", k>> stands for the k-th), flag bytes (compact-size count)
+LE32(x)   == <<x % 256, (x \div 256) % 256, (x \div 65536) % 256, x \div 16777216>>
+VarInt(x) == IF x < 253 THEN <<x>> ELSE <<253, x % 256, x \div 256>>
+Message(n, hashes, flags) ==
+    << <<"hdr">> >> \o LE32(n) \o VarInt(Len(hashes)) \o [k \in 1..Len(hashes) |-> <<"hash", k>>]
+    \o VarInt(Len(flags)) \o flags
+
 ExpectOf(n, M) ==
     LET b == Build(n, M) IN
     [ bits |-> b.bits, flags |-> FlagBytes(b.bits), hashes |-> b.hashes,
-      root |-> Root(n), matched |-> SeqOfSet(M) ]
+      root |-> Root(n), matched |-> SeqOfSet(M),
+      wire |-> Message(n, b.hashes, FlagBytes(b.bits)) ]
 
 Laws ==
     case.kind = "case" =>
